@@ -21,7 +21,7 @@ from ..native import Pool
 from ..tlc import MachineryError, run_tlc, workdir
 
 INVARIANTS = ["KernelMatches", "OwnMatches", "LockMutex", "CacheBound", "CacheSound", "Sequential", "NoSharedStruct"]
-PARAMS = {"quick": dict(schedules=24, free_rounds=5, nthreads=16, three=False),
+PARAMS = {"quick": dict(schedules=14, free_rounds=5, nthreads=16, three=False),
           "thorough": dict(schedules=400, free_rounds=40, nthreads=16, three=True)}
 
 
@@ -41,13 +41,19 @@ def make_requests(rng):
     for name, backend in (("r1", "llvm"), ("r2", "llvm"), ("r4", "cffi"), ("r6", "cffi")):
         reqs[name] = {"text": "y(i) = A(i,j) * x(j)", "output_format": "s", "backend": backend,
                       "inputs": {"A": A, "x": tensor("d0", [5], content([5], 5))}}
+    # the same problem (same cached kernel) on arguments of another size
+    A2 = tensor("d0s1", [6, 5], content([6, 5], 11))
+    reqs["r8"] = {"text": "y(i) = A(i,j) * x(j)", "output_format": "s", "backend": "llvm",
+                  "inputs": {"A": A2, "x": tensor("d0", [5], content([5], 5))}}
+    reqs["r9"] = {"text": "y(i) = A(i,j) * x(j)", "output_format": "s", "backend": "cffi",
+                  "inputs": {"A": A2, "x": tensor("d0", [5], content([5], 5))}}
     reqs["r3"] = {"text": "a(i) = b(i) + c(i)", "output_format": "s", "backend": "llvm",
                   "inputs": {"b": tensor("s0", [6], content([6], 3)), "c": tensor("s0", [6], content([6], 3))}}
     reqs["r5"] = {"text": "a(i,j) = b(i,j) * c(i,j)", "output_format": "ds", "backend": "cffi",
                   "inputs": {"b": tensor("d0s1", [3, 4], content([3, 4], 6)), "c": tensor("d0d1", [3, 4], content([3, 4], 12))}}
     reqs["r7"] = {"text": "o() = u(i) * v(i)", "output_format": "", "backend": "llvm",
                   "inputs": {"u": tensor("s0", [7], content([7], 4)), "v": tensor("d0", [7], content([7], 7))}}
-    keys = {"r1": "k1", "r2": "k1", "r3": "k3", "r4": "k4", "r6": "k4", "r5": "k5", "r7": "k7"}
+    keys = {"r1": "k1", "r2": "k1", "r8": "k1", "r9": "k4", "r3": "k3", "r4": "k4", "r6": "k4", "r5": "k5", "r7": "k7"}
     return reqs, keys
 
 
@@ -80,7 +86,8 @@ def run(tier, seed):
     reqs, keys = make_requests(rng)
     scenarios = [("same-cold", [(1, "r1"), (2, "r2")], []), ("same-warm", [(1, "r1"), (2, "r2")], ["k1"]),
                  ("different-cold", [(1, "r1"), (2, "r3")], []), ("cffi-same", [(1, "r4"), (2, "r6")], []),
-                 ("mixed", [(1, "r1"), (2, "r4")], []), ("cffi-different", [(1, "r4"), (2, "r5")], [])]
+                 ("mixed", [(1, "r1"), (2, "r4")], []), ("cffi-different", [(1, "r4"), (2, "r5")], []),
+                 ("same-kernel-other-sizes", [(1, "r1"), (2, "r8")], ["k1"]), ("same-kernel-other-sizes-cffi", [(1, "r4"), (2, "r9")], ["k4"])]
     if P["three"]:
         scenarios += [("three-same", [(1, "r1"), (2, "r2"), (3, "r1")], []), ("three-mixed", [(1, "r1"), (2, "r4"), (3, "r3")], [])]
     tag = f"{os.getpid()}"
@@ -126,7 +133,7 @@ def run(tier, seed):
             nth = P["nthreads"]
             pick = [rng.choice(names) for _ in range(nth)]
             if fr % 2 == 0:
-                pick = [rng.choice(["r1", "r2", "r3", "r7"]) for _ in range(nth - 3)] + [rng.choice(["r4", "r5", "r6"]) for _ in range(3)]
+                pick = [rng.choice(["r1", "r2", "r3", "r7", "r8", "r8"]) for _ in range(nth - 3)] + [rng.choice(["r4", "r5", "r6"]) for _ in range(3)]
             threads = [(i + 1, pick[i]) for i in range(nth)]
             rounds.append({"rid": len(rounds), "scenario": "free", "threads": threads, "warm": [], "schedule": None})
         # run all rounds natively (several sacrificial workers, each with its own interpreter)
